@@ -32,6 +32,14 @@ def cases(tier, rng, boost=1):
         yield _mk(a_, b_, m_, form='per_array_narrow', src='corpus-big')
         yield _mk(a_, b_, m_, form='unsigned_mixed', src='corpus-big')
     yield _mk([[0] * 30 + [1] * 4 + [0] * 3], [[0] * 31 + [1] * 3 + [2] * 3], 1, threads=16, src='corpus')   # N=37, rare state
+    # long inputs just above the powers of two where blocked / chunked kernels change their path (prime frame counts: never divisible by the thread count)
+    for N_ in (1031, 2053, 4099, 8209) + ((16411, 65537) if tier != 'quick' else ()):
+        lrng = core.Rng(N_)
+        f1 = gen.random_traj(lrng, 4, N_, 0.7)
+        f2 = [(x + (1 if lrng.random() < 0.2 else 0)) % 5 for x in f1]
+        for m_ in (0, 1):
+            for th_ in (3, 16):
+                yield _mk([f1], [f2], m_, threads=th_, src='corpus-long')
     maxn = {'quick': 5, 'thorough': 6, 'search': 5}[tier]
     k = 0
     for n in range(2, maxn + 1):
